@@ -31,7 +31,6 @@ def runOps : Reader → List String → List String → List String
 
 /-! the tar header fields as CPython's `TarInfo.frombuf` reads them (driver only; the theorems assume a `Codec`) -/
 
-def nts (bs : List Byte) : List Byte := bs.takeWhile (· != 0)
 
 /-- `tarfile.nti` for octal fields -/
 def nti (bs : List Byte) : Option Nat :=
@@ -40,7 +39,7 @@ def nti (bs : List Byte) : Option Nat :=
 
 def field (b : List Byte) (a z : Nat) : List Byte := (b.drop a).take (z - a)
 
-def realDec (b : List Byte) : Option (List Byte × Nat) := do
+def realDec (b : List Byte) : Option Hd := do
   let stored ← nti (field b 148 156)
   let sum := ((field b 0 148) ++ List.replicate 8 32 ++ (field b 156 512)).foldl (fun (a : Nat) (x : Byte) => a + x.toNat) 0
   if stored ≠ sum then none
@@ -53,7 +52,9 @@ def realDec (b : List Byte) : Option (List Byte × Nat) := do
   let name := if pre.isEmpty then name1 else pre ++ [47] ++ name1
   -- data blocks follow regular files (types '0', NUL, '7') only; everything else handled here has none
   let isReg := (ty == 48 || ty == 0 || ty == 55) && !isDir
-  pure (ty :: name, if isReg then size else 0)
+  -- GNU long-name record (type `L`): the next `size` bytes are the name
+  if ty == 76 then pure (.long size) else
+  pure (.reg name (if isReg then size else 0))
 
 def digest (d : List Byte) : Nat × Nat :=
   d.foldl (fun (ab : Nat × Nat) (x : Byte) => let a := (ab.1 + x.toNat) % 65521; (a, (ab.2 + a) % 65521)) (1, 0)
